@@ -608,3 +608,134 @@ func runSAJglue(c *load.Ctx, r *report.RuleResult) {
 		}
 	}
 }
+
+// --- the scanner is not stepped again after it has stopped ---------------------------------------------
+
+func init() {
+	register(&Rule{ID: "SA-Jlatch", Min: 2, Run: runSAJlatch,
+		Doc: "a JSON document's scanner is not stepped again after it has stopped: Document.NextLexeme, called twice on the same document with the scanner's Next() replaced by a staged oracle, does not ask the scanner a second time when the first call ended in an error — it answers the same error again (after the end of the document it may ask again or answer the end again). The explorations (SX-crash, SA-J) follow the scanner up to a rejecting transition and no further: its state after a raised error is half updated (the byte is consumed, the lexeme stack is not), and stepping it from there runs into its own assertion (`{9}`: the third NextLexeme panicked with a string)"})
+}
+
+func runSAJlatch(c *load.Ctx, r *report.RuleResult) {
+	const rel = "formats/json"
+	pub := c.Func(rel, "Document.NextLexeme")
+	next := c.Func(rel, "scanner.Next")
+	newLex := c.Func("internal/lexeme", "NewLexEvent")
+	if pub == nil || next == nil || newLex == nil {
+		r.Unk("anchor|formats/json Document.NextLexeme", "", "Document.NextLexeme / scanner.Next not found")
+		return
+	}
+	var eofG *ssa.Global
+	if p := c.Prog.ImportedPackage("io"); p != nil {
+		eofG, _ = p.Members["EOF"].(*ssa.Global)
+	}
+	if eofG == nil {
+		r.Unk("anchor|io.EOF", "", "io.EOF not found in the program")
+		return
+	}
+	names := lexEventNames(c)
+	var endTop, lit int64 = -1, -1
+	for v, n := range names {
+		switch n {
+		case "EndTop":
+			endTop = v
+		case "LiteralBegin":
+			lit = v
+		}
+	}
+	docT := pub.Signature.Recv().Type().(*types.Pointer).Elem()
+	idxT := newLex.Params[1].Type()
+	errT := pub.Signature.Results().At(1).Type()
+	eofMarker := func() pe.Value { return &pe.Iface{T: errT, V: pe.NewSym("io.EOF", errT)} }
+	cfg := newPEConfig(c)
+	cfg.Intrinsics["errors.Is"] = func(in *pe.Interp, args []pe.Value) (pe.Value, bool) {
+		return !pe.IsNil(args[0]) && pe.Show(args[0]) == pe.Show(args[1]), true
+	}
+	calls := 0
+	cfg.Intrinsics[next.String()] = func(in *pe.Interp, args []pe.Value) (pe.Value, bool) {
+		calls++
+		labels := []string{"lexeme", "endtop", "end", "panic-docerr"}
+		zero := in.Zero(next.Signature.Results().At(0).Type())
+		switch labels[in.Choose(fmt.Sprintf("scanner.Next#%d", calls), labels)] {
+		case "lexeme":
+			return &pe.Tuple{E: []pe.Value{in.Call(newLex, []pe.Value{lit, pe.NewSym("b", idxT), pe.NewSym("e", idxT), pe.NilV{}}), true}}, true
+		case "endtop":
+			return &pe.Tuple{E: []pe.Value{in.Call(newLex, []pe.Value{endTop, pe.NewSym("b", idxT), pe.NewSym("e", idxT), pe.NilV{}}), true}}, true
+		case "end":
+			return &pe.Tuple{E: []pe.Value{zero, false}}, true
+		}
+		dt := c.Pkg("errors").Types.Scope().Lookup("DocumentError").Type()
+		in.Panic(&pe.Iface{T: dt, V: pe.NewSym("scannerError", dt)})
+		return nil, true
+	}
+	var second pe.Value
+	outs := pe.ExploreFn(cfg, func(in *pe.Interp) pe.Value {
+		calls = 0
+		in.Store(in.GlobalPtr(eofG), eofMarker())
+		doc := in.NewStruct(docT, "doc")
+		first := in.Call(pub, []pe.Value{doc})
+		second = in.Call(pub, []pe.Value{doc})
+		return first
+	})
+	errOf := func(v pe.Value) string {
+		tp, _ := v.(*pe.Tuple)
+		if tp == nil || len(tp.E) != 2 {
+			return "?"
+		}
+		switch {
+		case pe.IsNil(tp.E[1]):
+			return "nil"
+		case strings.Contains(pe.Show(tp.E[1]), "io.EOF"):
+			return "EOF"
+		case strings.Contains(pe.Show(tp.E[1]), "scannerError"):
+			return "scannerError"
+		}
+		return pe.Show(tp.E[1])
+	}
+	seen := map[string]bool{}
+	for _, o := range outs {
+		cm := o.ChoiceMap()
+		first := cm["scanner.Next#1"]
+		key := "latch|first call: scanner " + first
+		if seen[key] {
+			continue
+		}
+		pos := c.Pos(pub.Pos())
+		if o.Undecided != "" || o.Panicked {
+			seen[key] = true
+			r.Unk(key, pos, "not interpretable: "+o.Exit())
+			continue
+		}
+		_, again := cm["scanner.Next#2"]
+		e1, e2 := errOf(o.Ret), errOf(second)
+		switch first {
+		case "lexeme":
+			if !again {
+				seen[key] = true
+				r.Bad(key, pos, "after a delivered lexeme the next call does not ask the scanner")
+			}
+		case "panic-docerr":
+			switch {
+			case again:
+				seen[key] = true
+				r.Bad(key, pos, fmt.Sprintf("the first call ended with %s and the second call steps the scanner again", e1))
+			case e2 != e1:
+				seen[key] = true
+				r.Bad(key, pos, fmt.Sprintf("the first call ended with %s, the second answers %s", e1, e2))
+			}
+		default:
+			// after the end of the document the scanner may be asked again (it answers "end" again, SX-crash
+			// covers those states); if it is not asked, the answer must be the end again
+			if !again && e2 != e1 {
+				seen[key] = true
+				r.Bad(key, pos, fmt.Sprintf("the first call ended with %s, the second answers %s without asking the scanner", e1, e2))
+			}
+		}
+	}
+	for _, f := range []string{"lexeme", "endtop", "end", "panic-docerr"} {
+		key := "latch|first call: scanner " + f
+		if !seen[key] {
+			r.OK(key, c.Pos(pub.Pos()), "the second call is consistent with the first")
+		}
+	}
+}
